@@ -58,7 +58,8 @@ def coq_term(case, obs):
     if o is None:
         return "false"          # an observation outside the model's vocabulary is a disagreement
     h = D.history_term(case)
-    t = "lobs_eqb (run_hist %s) %s && Bool.eqb (finding_C18_a %s) %s" % (h, o, h, D.cb(O.sharing(case, obs)))
+    t = "lobs_eqb (run_hist %s) %s && Bool.eqb (finding_C18_a %s) %s && counts_eqb (final_counts %s) (%d, %d)" % (
+        h, o, h, D.cb(O.sharing(case, obs)), h, obs["counts"][0], obs["counts"][1])
     names = (tuple(obs["doc_names"]), tuple(obs["subs_names"]))
     if names not in _names_seen:        # the two literal tables the model hard-codes: compared once per distinct value
         _names_seen.add(names)
